@@ -151,9 +151,15 @@ def run(repo, chk):
                 for k in n.value.keywords:
                     if k.arg == 'default_factory':
                         fac = src(k.value)
-            want = ordered[n.target.id]
-            chk.expect(anno.startswith(want) and fac == want, 'C18.D1', f'CodeGen.{n.target.id}',
-                       f'declared {anno} with factory {fac}; must be an insertion-ordered {want} (it is iterated or popped while emitting)', GEN, n.lineno)
+            # any insertion-ordered container will do (dict / defaultdict / OrderedDict / ChainMap, list, deque, tuple); what
+            # must not appear is a set, whose iteration order depends on the per-process hash seed
+            ORDERED = ('dict', 'defaultdict', 'collections.defaultdict', 'OrderedDict', 'collections.OrderedDict', 'ChainMap',
+                       'collections.ChainMap', 'list', 'deque', 'collections.deque', 'tuple')
+            head = anno.split('[')[0].strip()
+            fac_ok = fac == '' or fac.split('(')[0].strip() in ORDERED or (fac.startswith('lambda') and 'set' not in fac)
+            chk.expect(head in ORDERED and fac_ok and 'set' not in head.lower(), 'C18.D1', f'CodeGen.{n.target.id}',
+                       f'declared {anno} with factory {fac}; must be an insertion-ordered container (it is iterated or popped while '
+                       'emitting)', GEN, n.lineno)
     from . import c01 as _c01
     _c01.function_queue(repo, chk, gf, rule='C18.D1')
     # add_label, interpreted: names depend only on the sequence of requests (a per-prefix counter), never on hashes / ids
